@@ -49,10 +49,10 @@ CHECKS["C19"] = dict(category="exploration",
    technique="Lean model of the validator's fatal structural checks compared class-by-class with Interpreter::validate() on valid and corrupted documents; accepted documents are interpreted and every configuration decided by Spec.Legal; crash-freedom on random SCXML-vocabulary XML",
    text="Soundness: documents validate() accepts are run through the interpreter (no crash, only legal configurations). Completeness: generated valid documents (also with id-less states, null and lua datamodels) must be free of fatal issues and syntax-error warnings. Totality: corrupted documents and random element soup. The Lean model of the fatal checks agrees with the code on all classes; theorems about it are still to come, hence 'exploration'.",
    design_ref="6 / C19", note="Trusted: hand model Model.Validate (structural fatal checks only); generators define what 'valid' means for the completeness stream (ids unique, targets resolve, legal state specifications, one default transition per history/initial).")
-CHECKS["C14"] = dict(category="exploration",
-   technique="differential resume: serialize at a stable point, deserialize into a fresh interpreter (same and foreign document), run the same continuation on original and copy; both engines, null and lua datamodels",
-   text="For random charts and prefix histories the snapshot is taken at the first stable configuration after the last prefix event (self-sent external events may be pending); original and restored interpreter must produce the same notifications, logs and configurations under the continuation and a byte-identical second snapshot; a state string for another document must be rejected. No Lean theorem yet (the engine-state encoding is simple; the bisimulation argument is planned), hence 'exploration'.",
-   design_ref="6 / C14", note="Trusted: the trace harness; delayed events and invokers are outside the generated fragment.")
+CHECKS["C14"] = dict(category="proof",
+   technique="Lean 4 theorem about Model.Serial (what serialize keeps, what deserialize rebuilds): restore (snapshot e) = e up to the observer's log for every snapshotable engine state; its hypothesis is evaluated on every stable point the engine model reaches; differential resume on the compiled interpreter (serialize at a stable point, deserialize into a fresh interpreter - same and foreign document - and run the same continuation on both), both engines, null and lua datamodels",
+   text="Proved (Large engine model): a snapshot loses nothing the engine reads. The hypothesis Snapshotable is an invariant of the engine that is checked (compiled Lean code, every stable point of random runs), not proved; the fast engine's model is covered by the differential suite only; the JSON text in between is C15's subject. The compiled interpreter is tied by running original and restored copy side by side, requiring identical notifications, logs, configurations and an identical second snapshot, and rejection of another document's snapshot.",
+   design_ref="6 / C14", note="Trusted: Lean kernel; hand model Model.Serial; the serial harness. Delayed events and invokers are outside the generated fragment.")
 CHECKS["C07"] = dict(category="proof",
    technique="Lean 4 theorems about the model of BasicContentExecutor::process and the micro-steppers' per-block catch (Model.Exec), tied to the ASan+UBSan build by I = M trace comparison with failing elements injected at random block positions in ~30 concrete guises per datamodel; crash-freedom explored with sanitizers on element soup and corrupted charts",
    text="Proved for every block, element, chart and executor state of the model: a failing element leaves error.execution/error.communication in the internal queue behind everything queued before, exactly the remainder of its block is skipped, the following blocks run, no queued event is lost. The model is the interpreter's for the generated fragment because every run compares the full monitor trace (both engines, null/lua/promela datamodels) token by token. 'Never terminates abnormally / never out of bounds' is a statement about the C++ run time that no theorem over the model can carry: it is explored (sanitizers, random well-formed XML with garbage expressions, data-init/donedata/script failures), and labelled as such.",
